@@ -168,13 +168,15 @@ class Try:
                 raise
 
             # found the handler block, now render it
+            f = StringIO()
+            traceback.print_exc(100, f)
+            error_tb = f.getvalue()
+            ns = namespace(md, error_type=errname, error_value=v,
+                           error_tb=error_tb)[0]
+            # (push outside the try: when anything above fails, nothing
+            # has been pushed and nothing must be popped)
+            md._push(InstanceDict(ns, md))
             try:
-                f = StringIO()
-                traceback.print_exc(100, f)
-                error_tb = f.getvalue()
-                ns = namespace(md, error_type=errname, error_value=v,
-                               error_tb=error_tb)[0]
-                md._push(InstanceDict(ns, md))
                 return render_blocks(handler, md, encoding=self.encoding)
             finally:
                 md._pop(1)
